@@ -46,6 +46,14 @@ ONE_SIDED_OK = {
     ("wsgi", "middleware", "ensure_next.generator"): "forces the first chunk (WSGI only)",
 }
 
+def _one_sided_moved(side: str, mod: str, q: str, present) -> str:
+    """reason of a sanctioned one-sided definition that now lives in another sibling module of the same side (and no longer in its old one)"""
+    for (s_, m_, q_), why in ONE_SIDED_OK.items():
+        if s_ == side and q_ == q and m_ != mod and (m_, q_) not in present:
+            return why
+    return ""
+
+
 # nested definitions whose names differ between the sides
 RENAMED = {
     ("shortcut", "request_response.wsgi"): "request_response.asgi",
@@ -183,6 +191,8 @@ def run(p: Program, rep: Report, tier: str) -> None:
     # unit's multiset of effects unchanged.
     pairs: List[Tuple[str, FuncInfo, FuncInfo]] = []
     members: Dict[str, List[FuncInfo]] = {}
+    wu_all = {(m_, q_) for m_ in SIB_MODULES for q_ in _units(p, "wsgi", m_)}
+    au_all = {(m_, q_) for m_ in SIB_MODULES for q_ in _units(p, "asgi", m_)}
     for mod in SIB_MODULES:
         wu, au = _units(p, "wsgi", mod), _units(p, "asgi", mod)
         used_a: Set[str] = set()
@@ -196,6 +206,8 @@ def run(p: Program, rep: Report, tier: str) -> None:
                 members[au[tgt][0].fq] = au[tgt]
             elif ("wsgi", mod, q) in ONE_SIDED_OK:
                 rep.ok("R4.2", f"{mod}.{q}: WSGI only ({ONE_SIDED_OK[('wsgi', mod, q)]})")
+            elif _one_sided_moved("wsgi", mod, q, wu_all):
+                rep.ok("R4.2", f"{mod}.{q}: WSGI only ({_one_sided_moved('wsgi', mod, q, wu_all)}; moved here from another module of the package)")
             else:
                 rep.violation("R4.2", construct(f, text="one-sided definition"), f.loc, f"{f.fq} has no ASGI sibling (a behaviour defined on one interface only)")
         for q, ms in sorted(au.items()):
@@ -204,6 +216,8 @@ def run(p: Program, rep: Report, tier: str) -> None:
             f = ms[0]
             if ("asgi", mod, q) in ONE_SIDED_OK:
                 rep.ok("R4.2", f"{mod}.{q}: ASGI only ({ONE_SIDED_OK[('asgi', mod, q)]})")
+            elif _one_sided_moved("asgi", mod, q, au_all):
+                rep.ok("R4.2", f"{mod}.{q}: ASGI only ({_one_sided_moved('asgi', mod, q, au_all)}; moved here from another module of the package)")
             else:
                 rep.violation("R4.2", construct(f, text="one-sided definition"), f.loc, f"{f.fq} has no WSGI sibling (a behaviour defined on one interface only)")
     mh = p.module("baize.multipart_helper")
@@ -251,6 +265,17 @@ def run(p: Program, rep: Report, tier: str) -> None:
         unexplained_a = _filter(only_a, "asgi", sanc)
         if not unexplained_w and not unexplained_a:
             rep.ok("R4.2", f"{mod}.{f.qualname}: fingerprints agree up to {sum(only_w.values()) + sum(only_a.values())} sanctioned gateway differences (tier B)")
+            continue
+        # the only unexplained difference is HOW the same shared callee is given its arguments, and one side passes a `**mapping`
+        # it filled while reading the request (explicit keywords there, a spread here): the argument sets cannot be compared on
+        # the fingerprint - not decided, rather than reported as a difference
+        def _spread_call(it):
+            return isinstance(it, tuple) and len(it) >= 4 and it[0] == "call" and any(str(k_).startswith("None=") for k_ in it[3])
+        calls_w = [i for i in unexplained_w if isinstance(i, tuple) and i and i[0] == "call"]
+        calls_a = [i for i in unexplained_a if isinstance(i, tuple) and i and i[0] == "call"]
+        if len(calls_w) == len(unexplained_w) and len(calls_a) == len(unexplained_a) and calls_w and calls_a \
+                and {i[1] for i in calls_w} == {i[1] for i in calls_a} and (any(_spread_call(i) for i in calls_w) or any(_spread_call(i) for i in calls_a)):
+            rep.undecide("R4.2", f"{mod}.{f.qualname}: both sides call {sorted({i[1] for i in calls_w})} but one passes a **mapping built at run time: argument agreement not decidable on the fingerprint")
             continue
         rep.violation("R4.2", construct(f"baize.*.{mod}:{f.qualname}", text="wsgi-only " + "; ".join(sorted(items_text(i) for i in unexplained_w))[:400] + " || asgi-only " + "; ".join(sorted(items_text(i) for i in unexplained_a))[:400]),
                       f"{f.loc} vs {g.loc}",
